@@ -118,7 +118,9 @@ def run(seed, tier, lean) -> Result:
     for i, (spec, inst) in enumerate(cases):
         res.evaluations += 1
         try:
-            probs, o1, labels = check_case(spec, inst, res)
+            from ..common import time_limit
+            with time_limit(45):
+                probs, o1, labels = check_case(spec, inst, res)
         except Exception as e:
             res.notes.append(f'case skipped: {type(e).__name__}: {str(e)[:60]}'); firsts.append(None); continue
         firsts.append((o1, labels))
